@@ -300,7 +300,7 @@ def select_penalty(model, n_sim, theta, feature_names, likelihood=None,
                                             whitening=whitening)
                     except FloatingPointError as err:
                         logger.warning('Floating point error: {}'.format(err))
-                        loglik = np.NINF
+                        loglik = -np.inf
                     logliks[m_iteration, n_iteration, lmda_iteration] = loglik
 
     # choose the lambda with the empirical s.d. of the log SL estimates
